@@ -36,7 +36,7 @@ TAMPERS_OUT = [
     "swap-change-spk:p2pkh", "swap-change-spk:p2wpkh", "swap-change-spk:p2sh", "swap-change-spk:p2wsh", "swap-change-spk:p2tr",
     "swap-change-spk-redeem-only-metadata", "foreign-wallet-change", "single-cosigner-change", "duplicated-cosigner-change",
     "change-wrong-path", "change-foreign-fingerprint", "change-quorum-lowered", "second-change-output", "spend-output-dressed-as-change",
-    "change-one-wallet-key-rest-foreign", "change-foreign-keys-unwalkable-path",
+    "change-one-wallet-key-rest-foreign", "change-foreign-keys-unwalkable-path", "change-key-count-differs-from-op-n",
 ]
 TAMPERS_IN = [
     "input-prev-tx-altered", "input-witness-utxo-amount-with-sig", "input-foreign-script", "input-derivation-wrong-path",
@@ -54,6 +54,7 @@ GATES = {
     "out-tampers": ["tamper:" + t for t in TAMPERS_OUT],
     "in-tampers": ["tamper:" + t for t in TAMPERS_IN],
     "tamper-raised": ["tamper-outcome:raised"],
+    "input-shapes": ["inputs:two-outputs-of-one-prev-tx"],
 }
 
 
@@ -303,6 +304,26 @@ def tampers(ctx, rng, raw, signed_raw, wallet, truth, change_pos, paths=None):
             mm = with_tx(maps, mo)
             mm["outs"][change_pos] = out_meta(truth, honest_ent, script, kind)
             yield "change-one-wallet-key-rest-foreign", "raise-or-not-change", rp.encode(mm)
+        # the honest keys and derivations kept, the small-number opcodes m and n kept, but a surplus foreign key pushed
+        # among the keys (OP_m <cosigner keys> <foreign> OP_n CHECKMULTISIG): not the wallet's script (not even spendable)
+        honest_ent = [(k[1:], v) for k, v in maps["outs"][change_pos] if k[:1] == b"\x02"]
+        hk = sorted(s for s, _ in honest_ent)
+        for variant in ("surplus-last", "surplus-sorted-in", "key-missing"):
+            extra = ec.sec(ec.mul(rng.randrange(1, ec.N)))
+            if variant == "surplus-last":
+                keys = hk + [extra]
+            elif variant == "surplus-sorted-in":
+                keys = sorted(hk + [extra])
+            else:
+                if len(hk) < 2:
+                    continue
+                keys = hk[:-1]
+            script = tc.script_bytes([0x50 + truth.m] + keys + [0x50 + truth.n, 0xAE])
+            mo = copy_model(model)
+            mo["outs"][change_pos]["script"] = truth.commit(script)
+            mm = with_tx(maps, mo)
+            mm["outs"][change_pos] = out_meta(truth, honest_ent, script, kind)
+            yield "change-key-count-differs-from-op-n", "raise-or-not-change", rp.encode(mm)
         # wrong path / foreign fingerprint in one change derivation
         for name in ("change-wrong-path", "change-foreign-fingerprint"):
             mm = with_tx(maps, model)
@@ -432,7 +453,7 @@ def tampers(ctx, rng, raw, signed_raw, wallet, truth, change_pos, paths=None):
 
 
 # ---- one scenario -----------------------------------------------------------------------------------------------
-def one_scenario(ctx, rng, kind, m, n, network, n_in, layout, quick):
+def one_scenario(ctx, rng, kind, m, n, network, n_in, layout, quick, shared_prev=False):
     from buidl.hd import HDPublicKey
     from props.psbtlib import Scenario, Wallet, reparse
 
@@ -440,8 +461,10 @@ def one_scenario(ctx, rng, kind, m, n, network, n_in, layout, quick):
     truth = Truth(wallet)
     n_spend = {"with-change": 1, "sweep": 1, "batch": rng.choice([2, 3])}[layout]
     with_change = layout != "sweep"
-    sc = Scenario(rng, wallet, n_in=n_in, n_spend=n_spend, with_change=with_change)
+    sc = Scenario(rng, wallet, n_in=n_in, n_spend=n_spend, with_change=with_change, shared_prev=shared_prev)
     ctx.count("layout:" + layout)
+    if shared_prev and n_in >= 2:
+        ctx.count("inputs:two-outputs-of-one-prev-tx")
     o = outcome(lambda: sc.create_psbt().serialize())
     if o[0] == "exc":
         ctx.violation(f"psbt-create-raises:{kind}", o[1], {"op": "wallet", "kind": kind, "m": m, "n": n})
@@ -564,7 +587,8 @@ def run_shard(desc, ctx):
         if quick and n == 4:
             kind, m, n = PLAN[idx % 6]
         layout = LAYOUTS[(idx + rnd) % len(LAYOUTS)]
-        one_scenario(ctx, rng, kind, m, n, "mainnet" if (idx + rnd) % 2 else "testnet", (2 if idx % 4 == 0 else 1) if quick else rng.choice([1, 2, 3]), layout, quick)
+        n_in = (2 if idx % 4 == 0 else 1) if quick else rng.choice([1, 2, 3])
+        one_scenario(ctx, rng, kind, m, n, "mainnet" if (idx + rnd) % 2 else "testnet", n_in, layout, quick, shared_prev=n_in >= 2 and (idx // 4 + rnd) % 2 == 0)
         if ctx.out_of_time():
             return
 
